@@ -311,6 +311,48 @@ func (p *Party) Packager(enc string) (*packager.Packager, error) {
 	return pk, nil
 }
 
+// PackagerPrim returns the party's packager with all four packers and the given one ("jwe-auth", "jwe-anon",
+// "leg-auth", "leg-anon") as the PRIMARY packer — the one the packager falls back to for a media type profile it has no
+// packer for.
+func (p *Party) PackagerPrim(enc, prim string) (*packager.Packager, error) {
+	if pk, ok := p.pk[enc+"|"+prim]; ok {
+		return pk, nil
+	}
+
+	prov := p.provider()
+
+	var list []packer.Packer
+
+	for _, kind := range []string{prim, "jwe-auth", "jwe-anon", "leg-auth", "leg-anon"} {
+		if kind == prim && len(list) > 0 {
+			continue
+		}
+
+		pp, err := p.Packer(kind, enc)
+		if err != nil {
+			if kind == "jwe-auth" && prim != "jwe-auth" {
+				continue
+			}
+
+			return nil, err
+		}
+
+		list = append(list, pp)
+	}
+
+	prov.PackerList = list
+	prov.PackerValue = list[0]
+
+	pk, err := packager.New(prov)
+	if err != nil {
+		return nil, err
+	}
+
+	p.pk[enc+"|"+prim] = pk
+
+	return pk, nil
+}
+
 // Profile is the media type profile that selects the packer family in the packager.
 func Profile(kind string) string {
 	if strings.HasPrefix(kind, "leg") {
